@@ -11,7 +11,6 @@ import (
 
 	"grulesim/sim/core"
 	"grulesim/sim/esim"
-	"grulesim/sim/grl"
 )
 
 // ReuseResult is the outcome of one instance-reuse history.
@@ -77,7 +76,7 @@ func RunReuse(sc *core.Scenario) *ReuseResult {
 	defer func() { simhook.Order, simhook.Step, simhook.ID = nil, nil, nil }()
 	esim.InstallIDs("n")
 	simhook.Order = func(_ string, keys []string) []string { return keys }
-	lib, err := esim.BuildLibrary(grl.PrintProgram(sc.Program))
+	lib, err := esim.BuildLibraryOf(sc.Program, sc.Knobs.SplitAt)
 	if err != nil {
 		out.Harness = "generated program rejected by the builder: " + err.Error()
 		return out
